@@ -236,6 +236,23 @@ func (x *vc) callStatic(fr *frame, st *state, callee *ssa.Function, binds []Val,
 		x.trusted["external "+callee.String()+": assumed total, result unconstrained"] = true
 		if x.externalWrites(callee) {
 			x.havocCall(st, resT, callee.String(), true)
+			// documented: decoding JSON into an interface{} stores nil, bool, float64, string, []interface{} or
+			// map[string]interface{} - in particular never a reflect.Value
+			if nm := callee.String(); (nm == "encoding/json.Unmarshal" || nm == "(*encoding/json.Decoder).Decode") && len(args) >= 2 {
+				tgt := args[len(args)-1]
+				if tgt.T != "" && x.srt.sortOf(tgt.Typ) == sIface {
+					cn, cs := x.cellArr(st, types.NewInterfaceType(nil, nil))
+					cell := app("select", x.heapArr(st, cn, cs), app("ival", tgt.T))
+					for _, pk := range x.p.prog.AllPackages() {
+						if pk.Pkg.Path() == "reflect" {
+							if tn, ok := pk.Pkg.Scope().Lookup("Value").(*types.TypeName); ok {
+								x.trusted["encoding/json: decoding into an interface{} never stores a reflect.Value (documented set of result types)"] = true
+								x.assume(st.guard, not(eq(app("itag", cell), smtInt(int64(x.srt.typeID(tn.Type()))))))
+							}
+						}
+					}
+				}
+			}
 		}
 		r := x.freshResult(st, resT, "ext_"+callee.Name())
 		x.recordExternalResult(fr, callee, r, extGuard)
@@ -644,6 +661,14 @@ func (x *vc) assignsTargets(env *cenv, a *clause, mod *modSet) {
 	}
 	if root.op == "call" && root.name == "deref" && len(root.args) == 1 {
 		base := x.eval(env, root.args[0])
+		if mt, ok := base.Typ.Underlying().(*types.Map); ok {
+			// the entries of one map object
+			d, v, l := x.mapArrs(env.st, mt)
+			mod.add(d, base.T)
+			mod.add(v, base.T)
+			mod.add(l, base.T)
+			return
+		}
 		if pt, ok := base.Typ.Underlying().(*types.Pointer); ok {
 			if isStructObj(pt.Elem()) {
 				s := pt.Elem().Underlying().(*types.Struct)
